@@ -485,13 +485,27 @@ def run_program(prog, mode="do", collect=False):
         # the same doer objects were already used once: run them for a few cycles under ANOTHER scheduler at another
         # tyme, forget that trace, and only then do the run that is judged (doers must take their tyme from the
         # scheduler that runs them now)
-        first = TDoist(tock=prog["tock"], tyme=pre["tyme"], real=False)
+        same = bool(pre.get("same"))      # the judged scheduler object itself did the earlier run (a reused Doist)
+        first = doist if same else TDoist(tock=prog["tock"], tyme=pre["tyme"], real=False)
         tr.doist = first
         ctx.doist = first
         try:
-            first.do(doers=doers, limit=pre["limit"])
+            if same:
+                first.do(doers=doers, limit=pre["limit"], tyme=pre["tyme"])
+            else:
+                first.do(doers=doers, limit=pre["limit"])
         except BaseException:     # noqa: BLE001 - fault programs do not use prerun; be safe
             pass
+        if same:
+            doist.cycles = 0
+            doist.tymes = []
+            doist.limit = None      # do(limit=None) means "keep .limit": a run without a limit needs the attribute cleared
+            runkw = {"tyme": prog.get("tyme", 0.0)}      # a reused scheduler is told where to start
+            if not pre.get("pass", True):
+                # the second run names no doers: the scheduler runs the doers it holds (set here to the program's, the
+                # earlier run may have dropped none of them: prerun programs have no membership calls)
+                doist.doers = list(doers)
+                doers = None
         del tr.ev[:]
         del tr.calls[:]
         del tr.skipped[:]
